@@ -163,7 +163,6 @@ Proof.
 Qed.
 
 (** * the list of changes *)
-Definition ch_idx (ch : change) : nat := fst (fst (fst ch)).
 Definition apply_change (c : corpus) (ch : change) : corpus :=
   let '(idx, _, nw, k) := ch in set_nth c idx (nw, k).
 Definition apply_changes (c : corpus) (chs : list change) : corpus := fold_left apply_change chs c.
